@@ -98,6 +98,8 @@ structure St where
   emptyBlocks : AMap Nat := []
   tracker : AMap Nat := []
   allBlocks : List Nat := []
+  /-- GHOST (not in the Go code): block → node of the latest host affinity the collector has SEEN for it -/
+  seen : AMap Nat := []
 deriving Repr, Inhabited
 
 inductive Call
@@ -180,6 +182,24 @@ def onBlockUpdated (s : St) (b : Nat) (aff : Option Nat) (es : List Entry) : St 
   let s4 := releaseAll s3 (s3.allocs.filter (fun a => a.block == b && !(currentIds b es).contains a.id))
   { s4 with allBlocks := sins s4.allBlocks b }
 
+/-- `onBlockUpdated` for a block whose affinity is set but is NOT a `host:` affinity (e.g. `virtual:…`,
+model.IPAMAffinityTypeVirtual): `strings.CutPrefix` fails, so neither the host branch nor the
+"affinity removed" branch runs — `nodesByBlock` / `blocksByNode` keep whatever they had; `n` stays "". -/
+def onBlockOther (s : St) (b : Nat) (es : List Entry) : St :=
+  let s3 := emptyStage (upsertAll s b es) b es.isEmpty none
+  let s4 := releaseAll s3 (s3.allocs.filter (fun a => a.block == b && !(currentIds b es).contains a.id))
+  { s4 with allBlocks := sins s4.allBlocks b }
+
+/-- a block's affinity as the collector distinguishes it -/
+inductive Aff | host (n : Nat) | none | other
+deriving DecidableEq, Repr, Inhabited
+
+def onBlock (s : St) (b : Nat) (aff : Aff) (es : List Entry) : St :=
+  match aff with
+  | .host n => { onBlockUpdated s b (some n) es with seen := s.seen.set b n }
+  | .none => { onBlockUpdated s b none es with seen := s.seen.del b }
+  | .other => { onBlockOther s b es with seen := s.seen.del b }
+
 /-- `forgetBlock` -/
 def forgetBlock (s : St) (b : Nat) : St :=
   let s1 := releaseAll s (s.allocs.filter (fun a => a.block == b))
@@ -187,7 +207,7 @@ def forgetBlock (s : St) (b : Nat) : St :=
     | some n => bbnDel s1.blocksByNode n b
     | none => s1.blocksByNode
   { s1 with blocksByNode := bbn, allBlocks := s1.allBlocks.filter (· != b), nodesByBlock := s1.nodesByBlock.del b,
-            emptyBlocks := s1.emptyBlocks.del b, tracker := s1.tracker.del b }
+            emptyBlocks := s1.emptyBlocks.del b, tracker := s1.tracker.del b, seen := s1.seen.del b }
 
 /-! ### allocationIsValid -/
 
@@ -360,7 +380,7 @@ def syncIPAM (s : St) : St × List Call × Bool :=
 
 inductive Op
   | inSync
-  | block (b : Nat) (aff : Option Nat) (es : List Entry)
+  | block (b : Nat) (aff : Aff) (es : List Entry)
   | blockDel (b : Nat)
   | cnode (n : Nat) (k : Option Nat)
   | cnodeDel (n : Nat)
@@ -376,7 +396,7 @@ def setEnv (s : St) (e : Env) : St := { s with env := e }
 
 def step (s : St) : Op → St × List Call × Bool
   | .inSync => ({ s with inSync := true }, [], false)
-  | .block b aff es => (onBlockUpdated s b aff es, [], false)
+  | .block b aff es => (onBlock s b aff es, [], false)
   | .blockDel b => (forgetBlock s b, [], false)
   | .cnode n k => ({ s with cnodes := s.cnodes.set n k }, [], false)
   | .cnodeDel n => ({ s with cnodes := s.cnodes.del n }, [], false)
